@@ -460,6 +460,9 @@ class _Wat:
 
     def label_ref(self, depth):
         if self.named and depth < len(self.labels):
+            if self.style == "inline":
+                # every label of this style is called $L: the name denotes the innermost enclosing one, outer ones are only reachable by number
+                return "$L" if depth == 0 else str(depth)
             return self.labels[-1 - depth]
         return str(depth)
 
@@ -511,7 +514,7 @@ class _Wat:
 
     def push_label(self):
         if self.named:
-            name = "$L%d" % self.nlabel
+            name = "$L" if self.style == "inline" else "$L%d" % self.nlabel
             self.nlabel += 1
         else:
             name = None
